@@ -89,12 +89,23 @@ where
     let (an, aa) = a.neg_abs();
     let (bn, ba) = b.neg_abs();
     let p = <L::Bits as Raw>::mulw(aa, ba);
+    kani::cover!(aa != 0 && ba != 0, "W:non-zero operands");
     if FORM == 0 {
         let want = settle::<L::Bits>(mul_exact_small(an != bn, p, L::frac_nbits()));
         let mut t = Wrapping(x);
         MulAssign::<Wrapping<L>>::mul_assign(&mut t, Wrapping(y));
         assert!(Mul::<Wrapping<L>>::mul(Wrapping(x), Wrapping(y)).to_bits() == want.wrapped, "Wrapping * = exact product mod 2^W");
         assert!(t.to_bits() == want.wrapped, "Wrapping *= exact product mod 2^W");
+        // by-reference and by-reference-assigning forms (8/16-bit types: six 32-bit multipliers in one query took 275 s)
+        let (wx, wy) = (Wrapping(x), Wrapping(y));
+        if <L::Bits as Raw>::W > 16 {
+            return;
+        }
+        assert!(Mul::<&Wrapping<L>>::mul(&wx, &wy).to_bits() == want.wrapped && Mul::<&Wrapping<L>>::mul(wx, &wy).to_bits() == want.wrapped
+            && Mul::<Wrapping<L>>::mul(&wx, wy).to_bits() == want.wrapped, "Wrapping * by reference = exact product mod 2^W");
+        let mut u = wx;
+        MulAssign::<&Wrapping<L>>::mul_assign(&mut u, &wy);
+        assert!(u.to_bits() == want.wrapped, "Wrapping *= &rhs = exact product mod 2^W");
     } else if FORM == 1 {
         // multiplication by an integer
         let want = settle::<L::Bits>(I256::from_sign_mag(an != bn, 0, p));
@@ -110,7 +121,6 @@ where
         let one: Wrapping<L> = empty.iter().product();
         assert!(one.0 == L::wrapping_from_num(1), "empty product is 1 (wrapped)");
     }
-    kani::cover!(aa != 0 && ba != 0, "W:non-zero operands");
 }
 
 /// division / remainder, 8-bit types: against F's wrapping methods
@@ -155,6 +165,41 @@ where
     kani::cover!(sp.ovf || (L::frac_nbits() == 0 && !<L::Bits as Raw>::SIGNED), "W:quotient overflows (or unsigned integer type)");
     let q = Wrapping(x) / Wrapping(y);
     assert!(sp.ovf || is_quotient(&sp, q.to_bits()), "Wrapping / is trunc(a*2^f/b) when representable and never panics on overflow");
+}
+
+/// division by a constant power-of-two divisor (-1)^NEG 2^K through Wrapping, every dividend, any width (incl. 64/128 bits):
+/// all operator forms equal the exact quotient mod 2^W and none panics on overflow
+pub fn divc<L, const K: u32, const NEG: bool>()
+where
+    L: Fixed,
+    L::Bits: Raw,
+{
+    let a = <L::Bits as Raw>::any();
+    let bmag = 1u128 << K;
+    let b = <L::Bits as Raw>::trunc(if NEG { bmag.wrapping_neg() } else { bmag });
+    let x = L::from_bits(a);
+    let y = L::from_bits(b);
+    let (an, aa) = a.neg_abs();
+    let n = U256::shl_u128(aa, L::frac_nbits());
+    let mag = if K == 0 { n } else { U256 { hi: n.hi >> K, lo: (n.lo >> K) | (n.hi << (128 - K)) } };
+    let want = settle_sm::<L::Bits>(an != NEG, mag);
+    kani::cover!(want.overflow || mag.lo != 0, "W:quotient overflows or is a non-zero value that fits");
+    let (wx, wy) = (Wrapping(x), Wrapping(y));
+    assert!(Div::<Wrapping<L>>::div(wx, wy).to_bits() == want.wrapped, "Wrapping / = exact quotient mod 2^W");
+    assert!(Div::<&Wrapping<L>>::div(&wx, &wy).to_bits() == want.wrapped && Div::<&Wrapping<L>>::div(wx, &wy).to_bits() == want.wrapped,
+        "Wrapping / by reference = exact quotient mod 2^W");
+    let mut t = wx;
+    DivAssign::<Wrapping<L>>::div_assign(&mut t, wy);
+    let mut u = wx;
+    DivAssign::<&Wrapping<L>>::div_assign(&mut u, &wy);
+    assert!(t.to_bits() == want.wrapped && u.to_bits() == want.wrapped, "Wrapping /= (by value and by reference) = exact quotient mod 2^W");
+    // remainder by a power of two: sign of the dividend, magnitude |a| mod 2^K
+    let rmag = if K == 0 { 0 } else { aa & (bmag - 1) };
+    let r = <L::Bits as Raw>::trunc(if an { rmag.wrapping_neg() } else { rmag });
+    assert!(Rem::<Wrapping<L>>::rem(wx, wy).to_bits() == r, "Wrapping % = a - b*trunc(a/b)");
+    let mut v = wx;
+    RemAssign::<&Wrapping<L>>::rem_assign(&mut v, &wy);
+    assert!(v.to_bits() == r, "Wrapping %= &rhs");
 }
 
 /// a zero divisor panics (the only documented panic)
